@@ -152,7 +152,7 @@ func (o *vectorOperator) initOutputs(ctx context.Context) error {
 
 	o.outputCache = make([]outputSample, len(series))
 	for i := range o.outputCache {
-		o.outputCache[i].lhT = -1
+		o.outputCache[i].lhT = noTimestamp
 	}
 	o.pool.SetStepSize(len(highCardSide))
 
